@@ -38,10 +38,10 @@ def showCR : CRange → String
   | .unsat n => s!"*/{n}"
   | .range f l n => s!"{f}-{l}/{n}"
 
-def parseCondHdrs (im inm um ms : String) : Option CondHdrs := do
+def parseCondHdrs (im inm um ms ir : String) : Option CondHdrs := do
   let im ← parseTags im; let inm ← parseTags inm
-  let um ← parseOptInt um; let ms ← parseOptInt ms
-  pure { ifMatch := im, ifNoneMatch := inm, unmodSince := um, modSince := ms }
+  let um ← parseOptInt um; let ms ← parseOptInt ms; let ir ← parseOptInt ir
+  pure { ifMatch := im, ifNoneMatch := inm, unmodSince := um, modSince := ms, ifRange := ir }
 
 def parsePath (s : String) : Option Path :=
   if s == "/" then some [] else (s.splitOn "/").mapM parseStr
@@ -67,6 +67,7 @@ def parseFs (s : String) : Option (List (Path × Node)) :=
 def showOut : Out → String
   | .notFound => "404"
   | .forbidden => "403"
+  | .serverError => "500"
   | .listing p => "listing " ++ showPath p
   | .file p id enc => s!"file {showPath p} {id} " ++ (match enc with | some e => showStr e | none => "-")
 
@@ -90,13 +91,13 @@ def handle : List String → String
          | some (f, l) => s!"slice {f} {l}")
     | _, _ => "bad-op"
   | ["cond", cur, mt, im, inm, um, ms] =>
-    match parseStr cur, mt.toNat?, parseCondHdrs im inm um ms with
+    match parseStr cur, mt.toNat?, parseCondHdrs im inm um ms "none" with
     | some cur, some mt, some h => showCond (makeResponse cur mt h)
     | _, _, _ => "bad-op"
-  | ["file", cs, head, cur, mt, im, inm, um, ms, iro, rng, content] =>
-    match cs.toNat?, parseStr cur, mt.toNat?, parseCondHdrs im inm um ms, parseOptStr rng, parseHex content with
+  | ["file", cs, head, cur, mt, im, inm, um, ms, ir, rng, content] =>
+    match cs.toNat?, parseStr cur, mt.toNat?, parseCondHdrs im inm um ms ir, parseOptStr rng, parseHex content with
     | some cs, some cur, some mt, some h, some rng, some content =>
-      let r := fileResponse cs (parseBool head) cur mt h (parseBool iro) rng content
+      let r := fileResponse cs (parseBool head) cur mt h rng content
       s!"{r.status} {showCR r.contentRange} {showOptInt r.contentLength} {showHex r.body}"
     | _, _, _, _, _, _ => "bad-op"
   | ["norm", s] =>
